@@ -667,6 +667,8 @@ fn lex_line(
 							}
 							None =>
 							{
+								// There was no character after the backslash.
+								source_offset_end -= 1;
 								let warning = LexedToken {
 									result: Err(
 										Error::UnexpectedTrailingBackslash,
